@@ -193,7 +193,8 @@ def make_case(rng, tier, i, name, aligner=False, many=False, four=False):
         iters = min(iters, 5 if q else 10)
     rp = {'fn': 'perm', 'model': name, 'data': data, 'init': init, 'opts': opts, 'aligner': bool(aligner and name not in mm.INTEGRATION),
           'iterations': iters, 'perms': [list(p) for p in perms_for(rng, K, tier, 9 if four else 3)], 'pick': int(rng.integers(0, 2 ** 31)),
-          'reuse_trainer': bool(_CCOUNT[0] % 2)}
+          'reuse_trainer': bool(_CCOUNT[0] % 2),
+          'container': (_CCOUNT[0] // 2) % 3}       # one container for every fit of the case (labellings and conditioning probe alike)
     label = 'relabel %s K=%d D=%d N=%d lead=%s iters=%d init=%s perms=%d%s opts=%s' % (
         name, K, D, N, lead, iters, style, len(rp['perms']), ' ALIGNER' if aligner else '', mm.describe_options(opts))
     fail, key, coq, raised, nt = eval_perm(rp)
@@ -221,14 +222,14 @@ class TieTap:
         return self.inner.apply_mapping(mask, mapping)
 
 
-def run_fit(name, data, init, opts, iters, aligner, trainer=None):
+def run_fit(name, data, init, opts, iters, aligner, trainer=None, container=None):
     """returns (model, trace, smallest score gap met by the inline aligner or inf)"""
     o = dict(opts)
     tap = None
     if aligner:
         tap = TieTap()
         o['inline_permutation_aligner'] = tap
-    m, tr = mm.fit(name, data, init, iterations=iters, trainer=trainer, **o)
+    m, tr = mm.fit(name, data, init, iterations=iters, trainer=trainer, container=container, **o)
     return m, tr, (tap.min_gap if tap is not None else np.inf)
 
 
@@ -276,7 +277,7 @@ def eval_perm(rp):
         o = dict(opts)
         if mask_ is not None:
             o['source_activity_mask'] = mask_
-        m, tr, gap = run_fit(name, data_, init_, o, iters, rp['aligner'], trainer=None if fresh else shared)
+        m, tr, gap = run_fit(name, data_, init_, o, iters, rp['aligner'], trainer=None if fresh else shared, container=rp.get('container'))
         p = mm.predict(name, m, data_, **({'source_activity_mask': mask_} if (name == 'cacgmm' and mask_ is not None) else {}))
         return (m, tr, p), gap
     try:
